@@ -403,6 +403,50 @@ def stepG (g : Group) : GEv → Group
 
 def runG (g : Group) (h : List GEv) : Group := h.foldl stepG g
 
+/-! ### the world: a group together with the dialer-side latency collections of its members
+
+This is what the driver runs: the snapshots handed to the sets are *computed* from the samples
+(`Coll.snapshot`), not free inputs. -/
+
+structure World where
+  g : Group
+  colls : Nat → Nat → Coll      -- [type][dialer]
+  pens : Nat → Nat → Int        -- backoff penalty [type][dialer]
+
+/-- `snapshotLatencyForPolicy` of dialer `d` for domain `t` under policy `p` -/
+def World.snap (w : World) (p : Policy) (t d : Nat) : Option Int :=
+  (w.colls t d).snapshot p (w.pens t d)
+
+inductive WEv where
+  | sample (t d : Nat) (l : Int)          -- successful probe: `markAvailable(l)` + inform
+  | told (t d : Nat) (alive : Bool)       -- failure / traffic report after which the sets are told `alive`
+  | pen (t d : Nat) (v : Int)             -- the dialer's backoff penalty for the domain changed
+  | policy (p : Policy) (fixedIdx : Int)  -- `DialerGroup.SetSelectionPolicy`
+
+/-- one world event: new world and the group-level callbacks it fired -/
+def stepWcb (w : World) : WEv → World × List GCb
+  | .sample t d l =>
+    let w1 := { w with colls := upd w.colls t (upd (w.colls t) d ((w.colls t d).append l)) }
+    let r := gNotify w1.g t d true (w1.snap w1.g.policy t d)
+    ({ w1 with g := r.1 }, r.2)
+  | .told t d a =>
+    let r := gNotify w.g t d a (w.snap w.g.policy t d)
+    ({ w with g := r.1 }, r.2)
+  | .pen t d v => ({ w with pens := upd w.pens t (upd (w.pens t) d v) }, [])
+  | .policy p fi =>
+    let r := gSetPolicy w.g p fi (fun t d => w.snap p t d)
+    ({ w with g := r.1 }, r.2)
+
+def stepW (w : World) (e : WEv) : World := (stepWcb w e).1
+
+def runW (w : World) (h : List WEv) : World := h.foldl stepW w
+
+/-- `NewDialerGroup` over dialers that already carry `colls`/`pens`/alive flags -/
+def worldNew (n : Nat) (tol : Int) (offs : Nat → Int) (p : Policy) (fixedIdx : Int)
+    (alive : Nat → Nat → Bool) (colls : Nat → Nat → Coll) (pens : Nat → Nat → Int) : World :=
+  { g := (gNew n tol offs p fixedIdx alive (fun t d => (colls t d).snapshot p (pens t d))).1,
+    colls := colls, pens := pens }
+
 inductive SelErr where
   | noDialers | noAlive | outOfRange | unsupported
 deriving DecidableEq, Repr
